@@ -20,8 +20,8 @@ CLAUSES = {
 FUNCTIONS = ["BaseTaskPool._task_wrapper", "BaseTaskPool._task_ending", "BaseTaskPool._start_task", "BaseTaskPool.flush"]
 
 SPAWN = ("apply2", "map2", "apply3", "start2")
-ALPHA = ("apply", "map", "rel", "fail", "cancel", "cgroup", "call", "flush", "cbrel", "lock", "unlock", "nop")
-ALPHA_S = ("start", "stop", "rel", "fail", "cancel", "cgroup", "call", "flush", "cbrel", "lock", "unlock", "nop")
+ALPHA = ("apply", "map", "rel", "fail", "cancel", "cgroup", "call", "flush", "cbrel", "lock", "unlock", "flushx", "nop")
+ALPHA_S = ("start", "stop", "rel", "fail", "cancel", "cgroup", "call", "flush", "cbrel", "lock", "unlock", "flushx", "nop")
 NOP = len(ALPHA) - 1
 
 
@@ -79,7 +79,7 @@ def _final(w, it, pool, size, cb, simple):
     if pool.num_cancelled:
         return 212
     for f, _, _ in it.flushes:
-        if task_outcome(f)[0] != "ok":
+        if task_outcome(f)[0] != "ok" and f not in it.flush_cancelled:
             return 215
     if cb:
         for i in range(pool._num_started):
@@ -104,9 +104,11 @@ def families(tier):
     P = ["size", "cb", "x1", "x2", "a2", "x3", "a3", "x4", "a4", "t"]
     base = ["0 <= cb <= 3", "0 <= x1 <= 3", "0 <= x2 < %d" % NOP, "a2 >= -1", "t >= 0"]
     if not thorough:
-        pre = base + ["0 <= size <= 2", "0 <= x3 < %d" % NOP, "a3 >= -1", "x4 == %d" % NOP, "a4 == 0"]
-        parts = parts_product(cb=(3,), x1=(0, 1, 3), x2=range(NOP - 1), x3=(4, 7, 8))
+        pre = base + ["0 <= size <= 2", "0 <= x3 < %d" % NOP, "a3 >= -1", "x4 == %d or (x2 == 4 and x3 == 7 and x4 == 11)" % NOP, "a4 == 0"]
+        parts = parts_product(cb=(3,), x1=(0, 1, 3), x2=range(NOP - 2), x3=(4, 7, 8))
         parts += parts_product(cb=(3,), x1=(0, 1, 3), x2=(9,), x3=(2,))      # lock, then a task finishes
+        parts = [p + ["x4 == %d" % NOP] for p in parts]
+        parts += parts_product(cb=(3,), x1=(0, 1, 3), x2=(4,), x3=(7,), x4=(11,))   # cancel; flush; the flush call is cancelled
     else:
         pre = base + ["0 <= size <= 3", "0 <= x3 <= %d" % NOP, "a3 >= -1", "x4 == %d" % NOP, "a4 == 0"]
         parts = refine(parts_product(cb=(1, 3), x1=range(4), x2=range(NOP)), ["x2 == 0", "x2 == 1"], "x3", range(NOP + 1))
